@@ -735,6 +735,7 @@ func initTopicSys(t *Topic) error {
 		t.touched = stopic.TouchedAt
 	}
 	t.lastID = stopic.SeqId
+	t.delID = stopic.DelId
 
 	return nil
 }
